@@ -781,3 +781,187 @@ def desugar_match(model) -> bool:
         ast.fix_missing_locations(mod.tree)
         changed = changed or tr.changed
     return changed
+
+
+# --------------------------------------------------------------------------- NamedTuple holders
+def _new_namedtuples(model, module_names: dict) -> dict:
+    """(module short, class name) -> [field names] for NamedTuple classes that do not exist in the pinned
+    tree and only declare fields (no defaults, no methods): plain tuples with named access."""
+    out = {}
+    for mod in model.modules.values():
+        if mod.short.startswith("_typeguard"):
+            continue
+        known = module_names.get(mod.short, set())
+        for st in mod.tree.body:
+            if not isinstance(st, ast.ClassDef) or st.name in known or st.decorator_list or st.keywords:
+                continue
+            if len(st.bases) != 1 or norm_base(st.bases[0]) != "NamedTuple":
+                continue
+            fields, ok = [], True
+            for b in _strip_doc(list(st.body)):
+                if isinstance(b, ast.AnnAssign) and isinstance(b.target, ast.Name) and b.value is None:
+                    fields.append(b.target.id)
+                elif isinstance(b, ast.Pass):
+                    continue
+                else:
+                    ok = False
+            if ok and fields:
+                out[(mod.short, st.name)] = fields
+    return out
+
+
+def norm_base(b) -> str:
+    if isinstance(b, ast.Name):
+        return b.id
+    if isinstance(b, ast.Attribute):
+        return b.attr
+    return ""
+
+
+def erase_new_namedtuples(model, module_names: dict) -> list:
+    """`memos = _Memos(*get_shape_memo()); memos.single` -> `memos = get_shape_memo(); memos[0]`.
+    A NamedTuple *is* the tuple; the rules speak positions.  Only for classes new w.r.t. the pinned tree,
+    and only for names that are bound (in the same function) from a constructor call of that class and from
+    nothing else.  `_replace`, `_asdict`, `_fields` keep the object opaque (no rewrite of that name)."""
+    nts = _new_namedtuples(model, module_names)
+    if not nts:
+        return []
+    used = set()
+
+    def ctor(scope, call):
+        if not isinstance(call, ast.Call):
+            return None
+        b = None
+        if isinstance(call.func, ast.Name):
+            b = model.resolve_name(scope, call.func.id)
+        if b is None or b.kind not in ("class", "modvar"):
+            return None
+        try:
+            if b.kind == "class":
+                key = (b.target.module.short, b.target.name)
+            else:
+                key = (b.target[0].short, b.target[1])
+        except Exception:
+            return None
+        return key if key in nts else None
+
+    def unwrap(call, fields):
+        """The tuple expression a constructor call stands for, or None."""
+        if call.keywords and call.args:
+            return None
+        if call.keywords:
+            kw = {k.arg: k.value for k in call.keywords}
+            if None in kw or set(kw) != set(fields):
+                return None
+            return ast.copy_location(ast.Tuple(elts=[kw[f] for f in fields], ctx=ast.Load()), call)
+        if len(call.args) == 1 and isinstance(call.args[0], ast.Starred):
+            return call.args[0].value
+        if len(call.args) == len(fields) and not any(isinstance(a, ast.Starred) for a in call.args):
+            return ast.copy_location(ast.Tuple(elts=list(call.args), ctx=ast.Load()), call)
+        return None
+
+    for f in list(model.functions.values()):
+        if f.module.short.startswith("_typeguard"):
+            continue
+        # names bound only from constructor calls of one such class
+        bound, spoiled, ok_targets = {}, set(), set()
+        for n in _walk_own(f.node):
+            if isinstance(n, ast.Assign) and len(n.targets) == 1 and isinstance(n.targets[0], ast.Name):
+                k = ctor(f, n.value)
+                nm = n.targets[0].id
+                if k is not None and unwrap(n.value, nts[k]) is not None and bound.get(nm, k) == k:
+                    bound[nm] = k
+                    ok_targets.add(id(n.targets[0]))
+        for n in _walk_own(f.node):
+            if isinstance(n, ast.Name) and isinstance(n.ctx, (ast.Store, ast.Del)) and id(n) not in ok_targets:
+                spoiled.add(n.id)
+        params = {a.arg for a in ast.walk(f.node.args) if isinstance(a, ast.arg)}
+        for nm in list(bound):
+            if nm in spoiled or nm in params:
+                del bound[nm]
+        # opaque uses
+        for n in _walk_own(f.node):
+            if isinstance(n, ast.Attribute) and isinstance(n.value, ast.Name) and n.value.id in bound and n.attr not in nts[bound[n.value.id]]:
+                bound.pop(n.value.id, None)
+        if not bound:
+            continue
+
+        n_assign = {}
+        for n in _walk_own(f.node):
+            if isinstance(n, ast.Assign) and id(n.targets[0]) in ok_targets:
+                n_assign[n.targets[0].id] = n_assign.get(n.targets[0].id, 0) + 1
+        # a name bound once gets one local per field read (`memos__single = memos[0]` right after the
+        # binding; tuples are immutable and the name is never re-bound, so this is the same value)
+        spread = {nm for nm in bound if n_assign.get(nm) == 1}
+        fields_read = {}
+
+        class Tr(ast.NodeTransformer):
+            def visit_Attribute(self, n):
+                self.generic_visit(n)
+                if isinstance(n.value, ast.Name) and n.value.id in bound and n.attr in nts[bound[n.value.id]]:
+                    nm = n.value.id
+                    used.add(".".join(bound[nm]))
+                    if nm in spread and isinstance(n.ctx, ast.Load):
+                        fields_read.setdefault(nm, set()).add(n.attr)
+                        return ast.copy_location(ast.Name(id=f"{nm}__{n.attr}", ctx=ast.Load()), n)
+                    return ast.copy_location(ast.Subscript(value=n.value, slice=ast.Constant(value=nts[bound[nm]].index(n.attr)), ctx=n.ctx), n)
+                return n
+
+            def visit_Assign(self, n):
+                self.generic_visit(n)
+                if len(n.targets) == 1 and isinstance(n.targets[0], ast.Name) and n.targets[0].id in bound:
+                    k = ctor(f, n.value)
+                    if k is not None:
+                        n.value = unwrap(n.value, nts[k])
+                        used.add(".".join(k))
+                return n
+
+            def visit_FunctionDef(self, n):
+                return n if n is not f.node else self.generic_visit(n)
+
+            visit_AsyncFunctionDef = visit_FunctionDef
+            visit_Lambda = lambda self, n: n  # noqa: E731
+
+        Tr().visit(f.node)
+
+        def spread_in(stmts):
+            i = 0
+            while i < len(stmts):
+                st = stmts[i]
+                if isinstance(st, ast.Assign) and id(st.targets[0]) in ok_targets and st.targets[0].id in fields_read:
+                    nm = st.targets[0].id
+                    flds = nts[bound[nm]]
+                    extra = [
+                        ast.copy_location(ast.Assign(targets=[ast.Name(id=f"{nm}__{fl}", ctx=ast.Store())],
+                                                     value=ast.Subscript(value=ast.Name(id=nm, ctx=ast.Load()), slice=ast.Constant(value=flds.index(fl)), ctx=ast.Load()),
+                                                     lineno=st.lineno), st)
+                        for fl in flds if fl in fields_read[nm]
+                    ]
+                    stmts[i + 1:i + 1] = extra
+                    i += len(extra)
+                else:
+                    for fld in ("body", "orelse", "finalbody"):
+                        sub = getattr(st, fld, None)
+                        if isinstance(sub, list) and not isinstance(st, (ast.FunctionDef, ast.AsyncFunctionDef, ast.ClassDef)):
+                            spread_in(sub)
+                    for hd in getattr(st, "handlers", []) or []:
+                        spread_in(hd.body)
+                i += 1
+
+        if fields_read:
+            spread_in(f.node.body)
+        Tr().visit(f.node)
+        ast.fix_missing_locations(f.node)
+    return sorted(used)
+
+
+def _walk_own(fn_node):
+    """Nodes of a function body, not descending into nested function definitions / lambdas / classes."""
+    work = list(fn_node.body)
+    while work:
+        n = work.pop()
+        yield n
+        for c in ast.iter_child_nodes(n):
+            if isinstance(c, (ast.FunctionDef, ast.AsyncFunctionDef, ast.Lambda, ast.ClassDef)):
+                continue
+            work.append(c)
